@@ -32,6 +32,10 @@ fn float_patterns(r: &mut Rng, w: u32, ebits: u32, mbits: u32, thorough: bool) -
     let p = mbits as i64;
     let mut exps: Vec<i64> = vec![0, 1, 2, bias - 3, bias - 2, bias - 1, bias, bias + 1, bias + 2, bias + 7, bias + 8, bias + w - 2, bias + w - 1, bias + w, bias + w + 1,
         bias + p - 1, bias + p, bias + p + 1, emax - 1, emax];
+    // 2^k at the widths of the primitive integers (fast paths through primitives have their boundary there)
+    for k in [15i64, 16, 31, 32, 62, 63, 64, 65, 126, 127, 128, 129] {
+        exps.push(bias + k);
+    }
     if thorough {
         for e in 0..=emax {
             if e % 3 == 0 || (e - bias).abs() < 2 * w + 8 {
@@ -50,13 +54,14 @@ fn float_patterns(r: &mut Rng, w: u32, ebits: u32, mbits: u32, thorough: bool) -
     let mfull: u64 = (1u64 << mbits) - 1;
     let mut v = Vec::new();
     for e in exps {
-        let mut ms: Vec<u64> = vec![0, 1, mfull, 1u64 << (mbits - 1), (1u64 << (mbits - 1)) | 1, r.next() & mfull];
+        let mut ms: Vec<u64> = vec![1, mfull, 1u64 << (mbits - 1), (1u64 << (mbits - 1)) | 1, r.next() & mfull];
         if !thorough {
             let k = r.below(ms.len() as u64) as usize;
             ms.remove(k);
             let k = r.below(ms.len() as u64) as usize;
             ms.remove(k);
         }
+        ms.push(0); // exact powers of two always
         for m in ms {
             for s in [0u64, 1] {
                 if !thorough && s == 1 && r.below(3) == 0 {
@@ -84,7 +89,7 @@ fn int_patterns(r: &mut Rng, n: usize, thorough: bool) -> Vec<B> {
     for l in lens {
         for keep in [24usize, 53] {
             // value = [1][keep-1 mantissa bits][round bit][sticky bits...] with total length l
-            let variants = if thorough { 12 } else { 3 };
+            let variants = if thorough { 16 } else { 5 };
             for _ in 0..variants {
                 let mut x = vec![0u8; n];
                 let setbit = |x: &mut B, i: usize, b: bool| {
@@ -111,11 +116,16 @@ fn int_patterns(r: &mut Rng, n: usize, thorough: bool) -> Vec<B> {
                     }
                     let round = r.below(3) != 0;
                     setbit(&mut x, l - keep - 1, round);
-                    let sticky = r.below(3);
-                    for k in 0..(l - keep - 1) {
+                    // sticky part: all zero (a tie), only the lowest bit, one single bit at a random position,
+                    // one single bit within 12 places of the round bit, or random
+                    let sticky = r.below(5);
+                    let nst = l - keep - 1;
+                    let single = if nst == 0 { 0 } else if sticky == 2 { r.below(nst as u64) as usize } else { nst - 1 - (r.below(12.min(nst as u64)) as usize) };
+                    for k in 0..nst {
                         let b = match sticky {
                             0 => false,
                             1 => k == 0,
+                            2 | 3 => k == single,
                             _ => r.below(2) == 1,
                         };
                         setbit(&mut x, k, b);
